@@ -360,6 +360,8 @@ func (s *Live) removeRange(a, b int) *Live {
 	for _, m := range s.Sent {
 		if m.End < a {
 			sent = append(sent, m)
+		} else if m.Start >= a && m.End < b {
+			continue // removed together with its bytes
 		} else if m.Start >= b {
 			m.Start -= b - a
 			m.End -= b - a
